@@ -284,6 +284,24 @@ def axioms_factory(quick, seed):
                     want, mag = ref(x, y)
                     if not abs(LD(got) - want) <= LD(tol) * mag:
                         fail("<x,y> differs from sum(re(conj(x) y)) beyond the space's own precision", got, want)
+                # memory layout: the same vectors stored Fortran-ordered / as transposed views are the same vectors
+                def relayout(u, how):
+                    def one(l):
+                        if isinstance(l, onp.ndarray) and l.ndim >= 2:
+                            return onp.asfortranarray(l) if how == "F" else onp.ascontiguousarray(l.T).T
+                        return l
+                    return tmap(one, u)
+                if any(isinstance(l, onp.ndarray) and l.ndim >= 2 and l.size > 1 for l in tleaves(v)):
+                    for x, y in itertools.product(vecs[-3:], repeat=2):
+                        for how in ("F", "T"):
+                            nchecks += 1
+                            want, mag = ref(x, y)
+                            for got in (vs.inner_prod(x, relayout(y, how)), vs.inner_prod(relayout(x, how), y)):
+                                if not abs(LD(got) - want) <= LD(tol) * mag:
+                                    fail("<x,y> depends on the memory layout of an operand (%s)" % how, got, want)
+                            if not close(vs.add(x, relayout(y, how)), vs.add(x, y), 0) or not close(vs.covector(relayout(y, how)), vs.covector(y), 0) \
+                                    or not close(vs.scalar_mul(relayout(y, how), 1.5), vs.scalar_mul(y, 1.5), 0):
+                                fail("add / covector / scalar_mul depend on the memory layout of an operand (%s)" % how)
                 # range: entries whose squares are representable in the leaves' dtype but not in a narrower one
                 dts = {onp.asarray(l).dtype for l in tleaves(v) if isinstance(l, (onp.ndarray, onp.generic))}
                 if len(dts) == 1 and any(onp.asarray(l).size for l in tleaves(v)):
